@@ -349,7 +349,28 @@ pub fn reaches(env: &Env, d: &D, pred: &mut dyn FnMut(&D) -> bool) -> bool {
     go(env, d, pred, &mut vec![])
 }
 pub fn unprintable(env: &Env, d: &D) -> bool {
-    reaches(env, d, &mut |n| matches!(n, D::BigInt | D::Date | D::TypedArray(_) | D::Map(_, _) | D::Set(_)))
+    // (a union with `any` among its members *is* any: a Date or bigint next to it is absorbed, and {} expresses the union)
+    fn go(env: &Env, d: &D, seen: &mut Vec<usize>) -> bool {
+        match d {
+            D::BigInt | D::Date | D::TypedArray(_) | D::Map(_, _) | D::Set(_) => true,
+            D::Ref(i) => {
+                if seen.contains(i) {
+                    return false;
+                }
+                seen.push(*i);
+                go(env, env.get(*i), seen)
+            }
+            D::Union(ms) => {
+                let r = crate::member::Ref::new(env, crate::member::Mode::Open);
+                if ms.iter().any(|m| matches!(r.head(m), D::Any)) {
+                    return false;
+                }
+                ms.iter().any(|c| go(env, c, seen))
+            }
+            _ => d.children().into_iter().any(|c| go(env, c, seen)),
+        }
+    }
+    go(env, d, &mut vec![])
 }
 pub fn has_unprintable_value(v: &JsVal) -> bool {
     match v {
